@@ -1,0 +1,13 @@
+//go:build verif
+
+package gc
+
+// VerifRunOnce runs one IP-file pass and one state-dir pass of a GC created by NewFlannelGC, synchronously.
+// Verification hook (build tag verif).
+func VerifRunOnce(g GC) error {
+	fg := g.(*flannelGC)
+	if err := fg.cleanupIP(); err != nil {
+		return err
+	}
+	return fg.cleanupGCDirs()
+}
